@@ -827,6 +827,30 @@ func (c *EvalCtx) call(e *Expr) EV {
 				t = types.Typ[types.Uint64]
 			}
 			return EV{V: c.term(a, name), T: t}
+		case "char":
+			a := c.Eval(args[0])
+			return EV{V: x.strChar(c.term(a, "char"), c.toIndex(c.Eval(args[1]))), T: types.Typ[types.Int32]}
+		case "sblen", "sbchar":
+			a := c.Eval(args[0])
+			pv, ok := a.V.(*PtrV)
+			if !ok {
+				specFail("%s needs a *strings.Builder", name)
+			}
+			ct, n := x.sbGet(c.st, pv)
+			if name == "sblen" {
+				return EV{V: n, T: tInt}
+			}
+			return EV{V: x.Select(ct, c.toIndex(c.Eval(args[1]))), T: types.Typ[types.Int32]}
+		case "nilish":
+			// interface that is nil or holds a nil pointer
+			a := c.Eval(args[0])
+			switch v := a.V.(type) {
+			case *IfaceV:
+				return EV{V: tb.Or(tb.Eq(v.Tag, tb.Intc(0)), tb.Eq(v.Id, tb.Intc(0))), T: tBool}
+			case *PtrV:
+				return EV{V: v.IsNil, T: tBool}
+			}
+			specFail("nilish of %T", a.V)
 		case "isnil":
 			a := c.Eval(args[0])
 			return EV{V: c.equal(a, EV{IsNil: true}, e), T: tBool}
